@@ -113,10 +113,11 @@ Proof. exact callee_leaves_chain_intact. Qed.
 Print Assumptions C10_callee_leaves_callers_chain_intact.
 
 (* the two assumptions of that model, read from the source on every run: chain records are received by value (never
-   through a pointer, never with their address taken), every chain starts as an array of its own (`make`, or nil) and
-   every later write to a chain is `x.f = append(x.f, e)` *)
+   through a pointer, never with their address taken), and a chain field is only ever given an array of its own (`make`,
+   nil, the only slice taken of a local array), the same field of a chain record with one element appended, or a copy of
+   the same field's header *)
 Theorem C10_chain_discipline_in_source :
-  forallb (fun w => String.eqb (snd w) "append-self" || String.eqb (snd w) "fresh") chain_writes_src &&
+  forallb (fun w => String.eqb (snd w) "append-self" || String.eqb (snd w) "fresh" || String.eqb (snd w) "copy") chain_writes_src &&
   forallb (fun w => String.eqb (snd w) "value") chain_headers_src = true.
 Proof. exact chain_discipline_in_source. Qed.
 Print Assumptions C10_chain_discipline_in_source.
